@@ -67,6 +67,7 @@ type c12Scenario struct {
 	resps2                               []c12Resp
 	huge                                 bool // quota: the input count crosses 65535 -> 65536 during Fund
 	requote                              int  // 0 no, 1 AddQuote, 2 UnmarshalJSON between the two Fund calls
+	veryPatient                          bool // thousands of empty answers: executed once, without fault positions
 	deadCtx                              bool // Fund is handed a context that is already cancelled
 	whale                                int  // 0 no; 1 an output above 2^63 sat; 2 a prior input above 2^63 sat
 	sharedFee                            bool // one *bt.Fee object registered under both fee types (a miner with a single rate)
@@ -285,6 +286,17 @@ func genC12(c *kernel.RunCtx) *c12Scenario {
 		s.resps2 = append(s.resps2, c12Resp{kind: c.Pick(4, 4, 2, 1, 3), n: 1 + c.Choose(3), aux: c.U64n(1 << 16)})
 	}
 	c.End()
+	if c.RunIdx%1499 == 13 && !s.huge {
+		// quota: thousands of empty answers in a row before the supplier delivers (one execution, no fault positions)
+		s.veryPatient = true
+		var wait []c12Resp
+		for i, n := 0, 4097+c.Choose(1500); i < n; i++ {
+			wait = append(wait, c12Resp{kind: 5, n: 1})
+		}
+		s.resps = append(wait, c12Resp{kind: 0, n: 1})
+		s.refund = false
+		c.Count("probe.thousands_of_empty_batches_then_funds", 1)
+	}
 	if s.huge {
 		// a couple of small batches, tightly funded, to walk across the boundary
 		s.resps = []c12Resp{{kind: 1, n: 3}, {kind: 4, n: 2, aux: 1}, {kind: 1, n: 2}, {kind: 0, n: 1}}
@@ -503,8 +515,8 @@ func (p *c12Supplier) next(ctx context.Context, deficit uint64) ([]*bt.UTXO, err
 func (w *c12World) Run(c *kernel.RunCtx) {
 	s := genC12(c)
 	k := len(s.resps)
-	if s.huge {
-		w.one(c, s, s.resps, "none") // one execution only: each estimate serialises ~10 MB
+	if s.huge || s.veryPatient {
+		w.one(c, s, s.resps, "none") // one execution only: each estimate serialises ~10 MB / thousands of rounds
 		return
 	}
 	// fault positions: 0 = none; 1..k+1 = exhaustion at call i; k+2..2k+2 = error at call i; then cancellation at call i
